@@ -296,8 +296,48 @@ func (fr *Frame) specIdent(name string, env *SpecEnv) Val {
 			return fr.specGlobal(env.pkg, name, env)
 		}
 	}
-	_ = fc
+	// a local that was renamed since the contract was accepted: same position in the list of declarations
+	if alias := fr.renamedLocal(name); alias != "" && alias != name {
+		if fc.usedAlias == nil {
+			fc.usedAlias = map[string]string{}
+		}
+		fc.usedAlias[name] = alias
+		return fr.specIdent(alias, env)
+	}
 	return fr.specErr("unknown identifier %s", name)
+}
+
+// renamedLocal: the contract names a local that does not exist. If the accepted tree had a local of that name and the
+// function still declares the same number of source variables, the variable at the same position of the declaration
+// order is meant (a pure rename); anything else stays an error.
+func (fr *Frame) renamedLocal(name string) string {
+	fc := fr.fc
+	old := fc.eng.acceptedLocals[fc.fnName()]
+	if len(old) == 0 {
+		return ""
+	}
+	cur := sourceLocals(fr.fn)
+	if len(cur) != len(old) {
+		return ""
+	}
+	for _, c := range cur {
+		if c == name {
+			return ""
+		}
+	}
+	pos := -1
+	for i, o := range old {
+		if o == name {
+			if pos >= 0 {
+				return "" // ambiguous: two variables of that name (shadowing)
+			}
+			pos = i
+		}
+	}
+	if pos < 0 {
+		return ""
+	}
+	return cur[pos]
 }
 
 func (fr *Frame) phiVal(phi *ssa.Phi, env *SpecEnv) Val {
